@@ -195,6 +195,7 @@ def check(run: Run) -> None:
         if CEL + ".from_kelvin" not in calls or "units.kelvin" not in sl.attrs or any(isinstance(x, ast.BinOp) for e in sl.exprs for x in ast.walk(e)):
             run.violate("U5", f"{fq.qual}:route", fq.mod, r.ast, "from_kelvin_quantity does not route the kelvin value, unchanged, through from_kelvin")
 
+    _u7_purity(run)
     # ---- U6
     ev = Fn(w, CONV, "evaluate_expression")
     run.ob("U6", "evaluate_expression")
@@ -212,6 +213,47 @@ def check(run: Run) -> None:
                         oku = True
     if not oku:
         run.violate("U6", f"{ev.qual}:substitution", ev.mod, ev.fn, "evaluate_expression does not replace every quantity atom q by convert_to_si(q) (possibly evalf'd)")
+
+
+def _u7_purity(run: Run) -> None:
+    """Conversion helpers are pure functions of their arguments: no store into an argument's or a global's attributes/items, no
+    global/nonlocal, no memoising decorator. A cached result goes stale when the (mutable) argument changes: to_kelvin_quantity
+    and to_kelvin then stop agreeing."""
+    run.rule("U7", "conversion helpers are stateless: no stores into arguments/globals, no memoisation")
+    for modname in (CEL, CONV):
+        m = run.src.need(modname)
+        for fn in [s for s in m.tree.body if isinstance(s, ast.FunctionDef)]:
+            run.ob("U7", f"{modname}:{fn.name}")
+            params = {a.arg for a in fn.args.posonlyargs + fn.args.args + fn.args.kwonlyargs}
+            local = {x.id for x in ast.walk(fn) if isinstance(x, ast.Name) and isinstance(x.ctx, ast.Store)}
+            for d in fn.decorator_list:
+                dn = (dotted(d.func) if isinstance(d, ast.Call) else dotted(d)) or ""
+                if dn.split(".")[-1] in ("cache", "lru_cache", "cacheit", "cached_property", "memoize"):
+                    run.violate("U7", f"{modname}:{fn.name}:memoised", m, fn, f"{fn.name} is memoised ({dn}): results for mutable arguments (Celsius.value) go stale")
+            for x in ast.walk(fn):
+                if isinstance(x, (ast.Global, ast.Nonlocal)):
+                    run.violate("U7", f"{modname}:{fn.name}:global", m, x, f"{fn.name} keeps state in a global")
+                tg = []
+                if isinstance(x, ast.Assign):
+                    tg = x.targets
+                elif isinstance(x, (ast.AugAssign, ast.AnnAssign)):
+                    tg = [x.target]
+                for t in tg:
+                    if isinstance(t, (ast.Attribute, ast.Subscript)):
+                        root = t
+                        while isinstance(root, (ast.Attribute, ast.Subscript)):
+                            root = root.value
+                        if isinstance(root, ast.Name) and (root.id in params or root.id not in local):
+                            run.violate("U7", f"{modname}:{fn.name}:store:{norm(t, 50)}", m, x,
+                                        f"{fn.name} stores into `{norm(t, 50)}` (state attached to its argument or to a global): a later call can return a value "
+                                        f"computed from an earlier state of the argument")
+    cm = run.src.need(CEL)
+    cls = next((s for s in cm.tree.body if isinstance(s, ast.ClassDef) and s.name == "Celsius"), None)
+    if cls is not None:
+        for meth in [s for s in cls.body if isinstance(s, ast.FunctionDef)]:
+            for d in meth.decorator_list:
+                if (dotted(d) or "").split(".")[-1] in ("cached_property", "cache", "lru_cache"):
+                    run.violate("U7", f"{CEL}:Celsius.{meth.name}:memoised", cm, meth, f"Celsius.{meth.name} is memoised although Celsius.value is mutable")
 
 
 def _inline(f: Fn, n, e: ast.AST):
